@@ -348,6 +348,7 @@ def run(tier: str, opts: dict) -> int:
     parts = opts.get("part", "abc")
     L = letters()
     states = transitions = validated = 0
+    nontrivial = 0
     cov = {}
     if "a" in parts:
         fresh = pmap(_fresh, [L[i::32] for i in range(32)], chunk=1)
@@ -372,6 +373,7 @@ def run(tier: str, opts: dict) -> int:
         res = pmap(_history, [(h, expected) for h in hists], chunk=4)
         seen_kinds = set()
         leaks = 0
+        nontrivial += len({json.dumps(h) for h in hists if len(h) >= 2})
         for h, bad in zip(hists, res):
             transitions += len(h)
             for b in bad[:1]:
@@ -401,6 +403,7 @@ def run(tier: str, opts: dict) -> int:
             transitions += 1
             for b in r["bad"][:1]:
                 rep.violation(b["kind"], {"part": "b", "fault": t[0], "statements": t[1], "position": t[2], "failing_lookup": t[3], "script": r["script"]}, {k: v for k, v in b.items() if k != "kind"})
+        nontrivial += failed
         cov["crash_points"] = {"cases": len(tasks), "runs_that_failed": failed}
     if "c" in parts:
         pairs = [(a, b) for i, a in enumerate(THREAD_PROGRAMS) for b in THREAD_PROGRAMS[i:]]
@@ -429,15 +432,16 @@ def run(tier: str, opts: dict) -> int:
                               "complete": all(r["complete"] for r in res)})
         transitions += execs
         validated += execs
+        nontrivial += execs - len(plan) * len(pairs)  # schedules with at least one preemption
         cov["schedules"] = {"program_pairs": len(pairs), "plan": sched_cov, "schedules_executed": execs, "complete": all(c["complete"] for c in sched_cov)}
     rep.coverage.update(
         states=max(states, 1),
         transitions=max(transitions, 1),
         traces_validated_against_impl=validated,
         evaluations=transitions,
-        distinct_nontrivial=len(L),
+        distinct_nontrivial=nontrivial,
         samples=[{"letter": list(L[7]), "script": SCRIPTS[L[7][0]]}, {"thread_programs": THREAD_PROGRAMS[:2]}],
-        rule="(a) letters = script (11) x provider kind (3) x analyzer (3) x config scope (2); state = fingerprint of process-global state + the reused provider; every letter from the initial "
+        rule="non-trivial = distinct histories of >= 2 events + fault cases whose run really failed + schedules with >= 1 preemption; (a) letters = script (11) x provider kind (3) x analyzer (3) x config scope (2); state = fingerprint of process-global state + the reused provider; every letter from the initial "
         "state (a fixpoint with one state when nothing leaks) and every depth-2 history ending in a probe run on the same provider; each run compared with a fresh interpreter; "
         "(b) failing statement at every position / provider failing on every lookup, then probe runs on the same provider; (c) pairs of thread programs, every schedule up to the "
         "preemption bound, function-entry and session-line scheduling points",
